@@ -368,10 +368,53 @@ class ProgGen:
         return ("call", h, name)
 
     def step(self):
+        q = getattr(self, "_queue", None)
+        if q:
+            return q.pop(0)(self)
+        if getattr(self, "p_synced", 0.04) and not self.p_invalid and self.rng.random() < getattr(self, "p_synced", 0.04):
+            op = self.synced_arg_pair()
+            if op is not None:
+                return op
         if self.p_ext and self.resources and self.rng.random() < self.p_ext:
             res, is_dict = self.rng.choice(self.resources)
             return self.next_ext(res, is_dict)
         return self.next_call()
+
+    def synced_arg_pair(self):
+        """`target[k] = source` / `target.append(source)` ... with a LIVE synced collection as the
+        value.  Two steps: first `source()` is called (a read: the model loads too and the result is
+        the source's current content), then the mutation with the live object as its argument - the
+        model is given the content."""
+        from proto import Synced
+        rng = self.rng
+        cands = ["o%d" % i for i in range(len(self.r.root_objs()))]
+        cands += ["h%d" % i for i in range(len(self.r.handles)) if attached_path(self.r.ns, self.r.handles[i]) is not None][-8:]
+        if not cands:
+            return None
+        src = rng.choice(cands)
+        try:
+            sobj = self.r.target(src)
+        except Exception:  # noqa: BLE001
+            return None
+        sdict = self._is_dict(sobj)
+
+        def second(self):
+            import copy
+            h = self.pick_handle()
+            obj = self.r.target(h)
+            cur = obj._to_base()
+            val = Synced(src, copy.deepcopy(self.r.target(src)._to_base()))
+            if self._is_dict(obj):
+                name = rng.choice(["dsetitem", "dsetitem", "dsetdefault"])
+                return ("call", h, name, self._key(cur, 0.5), val)
+            name = rng.choice(["lappend", "lsetitem", "linsert"] + ([] if sdict else ["lextend", "liadd"]))
+            if name == "lsetitem":
+                return ("call", h, name, self._index(len(cur)), val)
+            if name == "linsert":
+                return ("call", h, name, rng.choice([0, len(cur), -1]), val)
+            return ("call", h, name, val)
+        self._queue = [second]
+        return ("call", src, "dcall" if sdict else "lcall")
 
     def next_ext(self, res, is_dict):
         """an outside rewrite of resource `res`"""
